@@ -161,7 +161,9 @@ class BaselineBuilder:
         self.nr += 1
         if len(ed[1]) == 1 and ed[1][0][0] == "OS":
             # the whole output stack of another execution, handed on untouched
-            osrc = self.build_exec_keep(ed[1][0][1], ed[1][0][2], blind=True)
+            # (the fresh run looks at the stack before handing it on: "that input"
+            # is the values, however the caller got hold of them)
+            osrc = self.build_exec_keep(ed[1][0][1], ed[1][0][2], blind=False)
             self.i_mkin = None
             self.i_exec = self.add("EXECO", r, q, osrc)
         else:
@@ -394,7 +396,9 @@ def verify_history(plan, resp, baselines, check_seq=True):
             st.iofired += 1
 
         if ev.op == "VOC":
-            VOCS[int(a[0])] = tuple(a[1:])
+            # parts whose zw_vocabulary_add failed (the same part twice) are not in
+            bad = int(ev.get("addfail", "0"))
+            VOCS[int(a[0])] = tuple(p_ for k_, p_ in enumerate(a[1:], 1) if k_ != bad)
             st.probe("vocabulary_built_by_plan")
         elif ev.op == "VOCADD":
             if ev.outcome == "ok":
